@@ -256,6 +256,8 @@ func deadlocked(s snapshot) bool {
 }
 
 func (cs *childState) watch(stop chan struct{}) {
+	var lastParked snapshot
+	parkedRuns := 0
 	for {
 		select {
 		case <-stop:
@@ -264,8 +266,37 @@ func (cs *childState) watch(stop chan struct{}) {
 		}
 		a := cs.snap()
 		if !deadlocked(a) {
+			// The counter predicate can be defeated by a change that alters WHO
+			// sends the enqueue signal (the yield points then no longer pair up).
+			// Second, counter-independent criterion: every application goroutine
+			// is inside Wait, no engine goroutine exists, and the Go runtime
+			// reports every goroutine that executes driver, simulator or
+			// application code parked (channel / select / sync wait; sleeping or
+			// runnable goroutines disqualify), with identical yield counters, on
+			// 40 consecutive observations. Nothing is left that could run.
+			if a.active > 0 && a.c[pDrainBeforeWait]-a.c[pDrainAfterWait] == a.active && !a.running {
+				stk := make([]byte, 4<<20)
+				stk = stk[:runtime.Stack(stk, true)]
+				if allParked(string(stk)) && cs.snap() == a {
+					if a == lastParked {
+						parkedRuns++
+					} else {
+						lastParked, parkedRuns = a, 1
+					}
+					if parkedRuns >= 40 {
+						cs.rec.Violation("C12|deadlock|all-goroutines-parked|enqueue-signal-accounting-differs",
+							"deadlock: every application goroutine is blocked in Listener.Wait, no engine goroutine exists and every driver / simulator / application goroutine is parked, on 40 consecutive observations with unchanged yield counters; the number of enqueue signals sent and received does not pair up (a waiter did not kick the driver, or a kick was consumed without effect)",
+							map[string]any{"scenario": cs.cur, "goroutines": string(stk), "yield_counters": a.c, "mode": cs.mon.mode})
+						cs.rec.Note("verdict", "deadlock")
+						os.Exit(3)
+					}
+					continue
+				}
+			}
+			parkedRuns = 0
 			continue
 		}
+		parkedRuns = 0
 		// The counters say "everyone is inside Wait", but a waiter whose
 		// notification is already buffered is about to run. Ask the Go
 		// runtime: the state is a deadlock only if every goroutine that
